@@ -157,7 +157,7 @@ func (c16Engine) Exec(t *testing.T, cc any) *simrt.Result {
 			cacheH = mocrelay.NewCacheHandler(c.Cap)
 			h = cacheH
 			for _, i := range c.Prefill {
-				cacheH.VerifCache().Add(evs[i])
+				cacheOf(cacheH).Add(evs[i])
 				_, _, state = model.apply(state, evs[i])
 			}
 		case "sqlite":
@@ -359,8 +359,8 @@ func (c16Engine) Exec(t *testing.T, cc any) *simrt.Result {
 					sim.Violate("C16", "restore-error", nil, "Restore: %v", err)
 				} else {
 					for _, fs := range append([][]simrt.FilterSpec{{{}}}, c.Probes...) {
-						a1 := cacheH.VerifCache().Find(simrt.Filters(fs))
-						a2 := h2.VerifCache().Find(simrt.Filters(fs))
+						a1 := cacheOf(cacheH).Find(simrt.Filters(fs))
+						a2 := cacheOf(h2).Find(simrt.Filters(fs))
 						if d := diffAnswers(a1, a2); d != "" {
 							fj, _ := json.Marshal(fs)
 							sim.Violate("C16", "dump-restore-differs", nil, "after dump+restore query %s differs: %s", fj, d)
